@@ -87,6 +87,11 @@ def gen_scenario(rng, cfg):
             for _ in range(1 + rng.below(2)):
                 externals.append({"line": this_line, "stage": rng.below(n),
                                   "sig": int(rng.choice([signal.SIGKILL, signal.SIGTERM, signal.SIGSTOP, signal.SIGSTOP]))})
+    if cfg.get("big_builtin") and rng.chance(35):
+        pre = big_alias_lines()
+        for x in externals:
+            x["line"] += len(pre)
+        lines = pre + lines
     sc = {"prop": "C02", "lines": lines, "externals": externals, "faults": {}}
     if cfg.get("on_pty"):
         sc["on_pty"] = True
@@ -94,6 +99,38 @@ def gen_scenario(rng, cfg):
         kind = rng.choice(["pipe", "fork", "fork"])
         sc["faults"] = {kind: [1 + rng.below(6), int(rng.choice([24, 23] if kind == "pipe" else [11, 12]))]}
     return sc
+
+
+def big_alias_lines():
+    """18 alias definitions of 4 kB each: from then on the builtin `alias` prints more than a pipe holds, so a
+    builtin running as a pipeline stage (in a forked copy of the shell) blocks like any other writer"""
+    out = []
+    for i in range(18):
+        text = "alias zz%02d='%s'" % (i, ("v%02d-" % i) * 1000)
+        out.append({"text": text, "stages": [{"kind": "builtin", "text": text}], "probe": False})
+    return out
+
+
+def big_builtin_scenarios():
+    """a builtin with more output than a pipe holds, in front of readers that stop early or read everything"""
+    out = []
+    def q():
+        return {"text": "pup q0 $?", "stages": [{"kind": "pup", "name": "q0", "role": {"t": "ignorer", "code": 0},
+                                                  "text": "pup q0"}], "probe": True}
+    readers = [
+        [("e0", {"t": "early", "k": 0, "rchunk": 4096, "code": 3})],
+        [("e0", {"t": "early", "k": 5000, "rchunk": 4096, "code": 0})],
+        [("k0", {"t": "sink", "rchunk": 65536, "code": 7})],
+        [("f0", {"t": "filter", "rchunk": 65536, "code": 0, "on_epipe": "sigpipe"}), ("e1", {"t": "early", "k": 1, "rchunk": 1000, "code": 9})],
+        [("i0", {"t": "ignorer", "code": 4})],
+    ]
+    for rd in readers:
+        stages = [{"kind": "builtin", "text": "alias"}] + [
+            {"kind": "pup", "name": n, "role": r, "text": "pup " + n} for n, r in rd]
+        lines = big_alias_lines() + [{"text": " | ".join(s["text"] for s in stages), "stages": stages, "probe": False}, q()]
+        out.append({"prop": "C02", "lines": lines, "externals": [], "faults": {}, "config": "explicit_big_builtin",
+                    "adversarial_picks": 50})
+    return out
 
 
 def perm_scenarios():
@@ -280,7 +317,7 @@ def run_case(sc, picks=None, rng=None, keep_log=False):
 
 CONFIGS = {
     # name: (generator cfg, share of the batch)
-    "plain": ({"max_lines": 2}, 35),
+    "plain": ({"max_lines": 2, "big_builtin": True}, 35),
     "signals": ({"max_lines": 2, "externals": True}, 28),
     "faults": ({"max_lines": 2, "faults": True}, 15),
     "background": ({"max_lines": 2, "background": True, "externals": True}, 12),
@@ -307,7 +344,7 @@ def make_case(seed, index):
 
 
 def run(args):
-    perms = perm_scenarios()
+    perms = perm_scenarios() + big_builtin_scenarios()
     return pbatch.run_check(
         prop="C02", args=args, runner=C02Runner, make_case=make_case, runs=TIERS[args["tier"]],
         extra_cases=perms,
